@@ -20,7 +20,10 @@ RULE = ("correspondence: Lean model (interpreter of the column table regenerated
         "so that the parser is reached).  Strings, integers, error class and epoch microseconds compared exactly; float() "
         "attributes must be the correctly rounded double of the model's exact decimal (<= 1/2 ulp), excentricity within 1 ulp. "
         "oracle: the statement evaluated on the implementation with Python's own Decimal/Fraction of the printed text "
-        "(1 ulp), integer epoch arithmetic, stripped lines.  A case is non-trivial when it is a distinct (line1, line2) pair; "
+        "(1 ulp), integer epoch arithmetic, stripped lines; a third of the objects are then used the way callers use them "
+        "(str/repr/print/format/logging, copy, deepcopy, pickle, vars/dir, attributes read twice, a sibling object from the "
+        "same lines printed) and the statement is evaluated on the same object again after each use; some are judged as "
+        "Orbital(...).tle before and after str(Orbital).  A case is non-trivial when it is a distinct (line1, line2) pair; "
         "distinct = (line1, line2).")
 ASSUMPTIONS = [
     "input restricted to printable ASCII (Python's Unicode digits / whitespace are outside the Text model)",
@@ -321,9 +324,181 @@ def expected_epoch_us(f):
     return days0 * 86400000000 + (day_e8 - 100000000) * 864
 
 
-def oracle_case(ctx, f, l1, l2, in1, in2, how="Tle"):
+def _read(t, a):
+    """(True, value) | (False, 'Class: message') - reading an attribute of the object must not fail."""
+    try:
+        return True, getattr(t, a)
+    except Exception as e:  # noqa
+        return False, "%s: %s" % (type(e).__name__, str(e)[:120])
+
+
+def check_object(ctx, t, f, in1, in2, case, kind="field_mismatch", site="Tle._parse_tle"):
+    """The statement on the object t that was built from (in1, in2) with printed fields f: every attribute equals the value
+    printed in its columns, the epoch rule, line1/line2 stripped.  Returns the number of violations raised."""
+    n = [0]
+
+    def bad(attr, got, want):
+        n[0] += 1
+        ctx.violation(kind, dict(case, attribute=attr), lib.jsonable(got), lib.jsonable(want), site=site)
+
+    want_s = {"satnumber": f["satnum"], "classification": f["classification"], "id_launch_year": f["launch_year"],
+              "id_launch_number": f["launch_number"], "id_launch_piece": "%-3s" % f["launch_piece"],
+              "epoch_year": f["epoch_year"]}
+    for a, wv in want_s.items():
+        ok, v = _read(t, a)
+        if not ok or v != wv:
+            bad(a, v, wv)
+    want_i = {"ephemeris_type": int(f["ephemeris"]) if f["ephemeris"].strip() else 0,
+              "element_number": int(f["elnum"]), "orbit": int(f["rev"])}
+    for a, wv in want_i.items():
+        ok, v = _read(t, a)
+        if not ok or v != wv or isinstance(v, bool):
+            bad(a, v, wv)
+    for a, x in printed_values(f).items():
+        ok, v = _read(t, a)
+        ok = ok and isinstance(v, float) and not math.isnan(v) and not math.isinf(v) and abs(Fraction(v) - x) <= Fraction(math.ulp(v))
+        if not ok:
+            bad(a, repr(v), "%s (printed %s)" % (float(x), str(x)))
+    yy = int(f["epoch_year"])
+    if yy <= 56 or yy >= 69:
+        want = expected_epoch_us(f)
+        ok, ep = _read(t, "epoch")
+        try:
+            got = epoch_us(t) if ok else None
+        except Exception as e:  # noqa
+            ok, ep = False, "%s: %s" % (type(e).__name__, str(e)[:120])
+        if not ok:
+            bad("epoch", ep, "%d us (%s)" % (want, EPOCH0 + _dt.timedelta(microseconds=want)))
+        elif got != want:
+            bad("epoch", "%d us (%s)" % (got, ep), "%d us (%s)" % (want, EPOCH0 + _dt.timedelta(microseconds=want)))
+    ok1, v1 = _read(t, "line1")
+    ok2, v2 = _read(t, "line2")
+    if not (ok1 and ok2) or v1 != in1.strip() or v2 != in2.strip():
+        bad("line1/line2", [v1, v2], [in1.strip(), in2.strip()])
+    return n[0]
+
+
+# Ways a caller uses a Tle it holds: none of them is an assignment, so the statement must hold of the object afterwards as it
+# did before (the attributes ARE "the decoded orbital elements handed to the propagator", not a snapshot taken at construction).
+def _use_str(t, in1, in2):
+    str(t)
+
+
+def _use_repr(t, in1, in2):
+    repr(t)
+
+
+def _use_print(t, in1, in2):
+    import io
+    print(t, file=io.StringIO())
+
+
+def _use_format(t, in1, in2):
+    "%s" % (t,)
+    "{}".format(t)
+    "{!r:.20}".format(t)
+
+
+def _use_log(t, in1, in2):
+    import io
+    import logging
+    lg = logging.Logger("pv.c02.use")          # private logger, not registered, its own handler
+    lg.addHandler(logging.StreamHandler(io.StringIO()))
+    lg.warning("element set %s", t)
+
+
+def _use_copy(t, in1, in2):
+    import copy
+    copy.copy(t)
+
+
+def _use_deepcopy(t, in1, in2):
+    import copy
+    copy.deepcopy(t)
+
+
+def _use_pickle(t, in1, in2):
+    import pickle
+    pickle.loads(pickle.dumps(t))
+
+
+def _use_inspect(t, in1, in2):
+    dict(vars(t))
+    dir(t)
+    t == t
+    hash(t)
+    bool(t)
+    getattr(t, "no_such_attribute", None)
+
+
+def _use_reread(t, in1, in2):
+    for a in ["line1", "line2", "platform", "epoch"] + STR_ATTRS + INT_ATTRS + FLOAT_ATTRS:
+        getattr(t, a)
+
+
+def _use_sibling(t, in1, in2):
+    """A second object from the same lines, formatted: the first object must not notice."""
+    str(_tlefile().Tle("y", line1=in1, line2=in2))
+
+
+USES = {"str": _use_str, "repr": _use_repr, "print": _use_print, "format": _use_format, "log": _use_log, "copy": _use_copy,
+        "deepcopy": _use_deepcopy, "pickle": _use_pickle, "inspect": _use_inspect, "reread": _use_reread,
+        "sibling": _use_sibling}
+USE_NAMES = sorted(USES)
+
+
+def draw_uses(rng):
+    return [rng.choice(USE_NAMES) for _ in range(rng.choice([1, 1, 2, 3]))]
+
+
+def use_probe(ctx, t, f, in1, in2, case, uses, via):
+    """Apply the uses one after the other; after each, the statement is evaluated on the object again.  An exception of
+    the use itself is not judged (it is not part of the statement); what the object says afterwards is."""
+    done = []
+    for u in uses:
+        fn = USES.get(u)
+        if fn is None:
+            continue
+        try:
+            fn(t, in1, in2)
+        except Exception as e:  # noqa
+            ctx.count("use_raised_" + u)
+        done.append(u)
+        ctx.count("eval_oracle_after_use")
+        if check_object(ctx, t, f, in1, in2, dict(case, via=via, after=list(done)), kind="changed_by_use",
+                        site="Tle.__str__ / Tle attributes after %s" % u):
+            return 1
+    return 0
+
+
+def orbital_probe(ctx, f, in1, in2, case, uses):
+    """observe_at: Orbital(...).tle - the element set an Orbital holds, right after construction and after the Orbital and
+    its element set have been used.  Element sets the propagator refuses are not a matter of this statement."""
+    try:
+        from pyorbital.orbital import Orbital
+        orb = Orbital("x", line1=in1, line2=in2)
+    except Exception as e:  # noqa
+        ctx.count("orbital_refused")
+        return 0
+    ctx.count("eval_oracle_orbital")
+    c = dict(case, via="Orbital.tle")
+    if check_object(ctx, orb.tle, f, in1, in2, c):
+        return 1
+    try:
+        str(orb)
+    except Exception:  # noqa
+        ctx.count("use_raised_str_orbital")
+    if check_object(ctx, orb.tle, f, in1, in2, dict(c, after=["str(Orbital)"]), kind="changed_by_use",
+                    site="Orbital.__str__ / Tle.__str__"):
+        return 1
+    return use_probe(ctx, orb.tle, f, in1, in2, case, uses, "Orbital.tle")
+
+
+def oracle_case(ctx, f, l1, l2, in1, in2, how="Tle", uses=(), orbital=False):
     tlefile = _tlefile()
     case = {"line1": in1, "line2": in2, "via": how}
+    if how == "Orbital.tle":
+        return orbital_probe(ctx, f, in1, in2, {"line1": in1, "line2": in2}, [u for u in uses if u != "str(Orbital)"])
     try:
         if how == "read":
             t = tlefile.read("x", line1=in1, line2=in2)
@@ -332,36 +507,15 @@ def oracle_case(ctx, f, l1, l2, in1, in2, how="Tle"):
     except Exception as e:  # noqa
         ctx.violation("wellformed_rejected", case, "%s: %s" % (type(e).__name__, str(e)[:120]), "attributes decoded",
                       site="Tle.__init__")
-        return
+        return 1
     ctx.count("eval_oracle")
-
-    def bad(attr, got, want):
-        ctx.violation("field_mismatch", dict(case, attribute=attr), lib.jsonable(got), lib.jsonable(want), site="Tle._parse_tle")
-
-    want_s = {"satnumber": f["satnum"], "classification": f["classification"], "id_launch_year": f["launch_year"],
-              "id_launch_number": f["launch_number"], "id_launch_piece": "%-3s" % f["launch_piece"],
-              "epoch_year": f["epoch_year"]}
-    for a, wv in want_s.items():
-        if getattr(t, a) != wv:
-            bad(a, getattr(t, a), wv)
-    want_i = {"ephemeris_type": int(f["ephemeris"]) if f["ephemeris"].strip() else 0,
-              "element_number": int(f["elnum"]), "orbit": int(f["rev"])}
-    for a, wv in want_i.items():
-        if getattr(t, a) != wv or isinstance(getattr(t, a), bool):
-            bad(a, getattr(t, a), wv)
-    for a, x in printed_values(f).items():
-        v = getattr(t, a)
-        ok = isinstance(v, float) and not math.isnan(v) and not math.isinf(v) and abs(Fraction(v) - x) <= Fraction(math.ulp(v))
-        if not ok:
-            bad(a, repr(v), "%s (printed %s)" % (float(x), str(x)))
-    yy = int(f["epoch_year"])
-    if yy <= 56 or yy >= 69:
-        got = epoch_us(t)
-        want = expected_epoch_us(f)
-        if got != want:
-            bad("epoch", "%d us (%s)" % (got, t.epoch), "%d us (%s)" % (want, EPOCH0 + _dt.timedelta(microseconds=want)))
-    if t.line1 != in1.strip() or t.line2 != in2.strip():
-        bad("line1/line2", [t.line1, t.line2], [in1.strip(), in2.strip()])
+    if check_object(ctx, t, f, in1, in2, case):
+        return 1
+    if uses and use_probe(ctx, t, f, in1, in2, {"line1": in1, "line2": in2}, uses, how):
+        return 1
+    if orbital:
+        return orbital_probe(ctx, f, in1, in2, {"line1": in1, "line2": in2}, uses)
+    return 0
 
 
 def ecc_exhaustive(ctx, lo, hi):
@@ -397,7 +551,7 @@ def oracle(ctx):
     for (_, l1, l2) in tlegen.REAL_TLES:
         # real element sets: check through the generic text route (fields read off the columns of the standard)
         f = fields_of_lines(l1, l2)
-        oracle_case(ctx, f, l1, l2, l1, l2)
+        oracle_case(ctx, f, l1, l2, l1, l2, uses=rng.sample(USE_NAMES, len(USE_NAMES)), orbital=True)
     while k < n:
         f = tlegen.full_range_fields(rng, statement_years=True) if rng.random() < 0.7 else tlegen.random_fields(rng, "any")
         l1, l2 = tlegen.encode(f)
@@ -406,7 +560,11 @@ def oracle(ctx):
         if r < 0.3:
             in1 = rng.choice([" ", "  ", "\t", ""]) + l1 + rng.choice([" ", "\n", "\r\n", "  \n", ""])
             in2 = rng.choice([" ", "", "\t "]) + l2 + rng.choice(["\n", " ", ""])
-        oracle_case(ctx, f, l1, l2, in1, in2, how=("read" if rng.random() < 0.1 else "Tle"))
+        # every third object is also used the way callers use it (printed, logged, copied, pickled, read twice ...) and
+        # judged again after each use; some are judged as the element set an Orbital holds
+        uses = draw_uses(rng) if rng.random() < 0.34 else ()
+        oracle_case(ctx, f, l1, l2, in1, in2, how=("read" if rng.random() < 0.1 else "Tle"), uses=uses,
+                    orbital=(rng.random() < 0.04))
         k += 1
     # the 1-ulp claim of the eccentricity product
     if ctx.tier == "thorough":
@@ -490,18 +648,22 @@ def replay(ctx, case):
         counts = {}
 
         def violation(self, kind, case, observed, required, site=""):
-            self.violations.append((kind, case.get("attribute"), observed, required))
+            self.violations.append((kind, case.get("attribute"), observed, required, case.get("after", [])))
 
         def count(self, *a, **k):
             pass
     c = _C()
+    via = inp.get("via", "Tle")
+    uses = [u for u in inp.get("after", [])]
+    if uses:
+        print("sequence: object from %s, then %s, then every attribute read again" % (via, ", ".join(uses)))
     try:
-        oracle_case(c, f, s1, s2, l1, l2)
+        oracle_case(c, f, s1, s2, l1, l2, how=via if via in ("Tle", "read", "Orbital.tle") else "Tle", uses=uses)
     except Exception as e:  # noqa  (fields not well-formed: not a statement case)
         print("fields are not well-formed (%s): outside the statement" % e)
         return 0
     for v in c.violations:
-        print("VIOLATES: %s attribute=%s observed=%s required=%s" % v)
+        print("VIOLATES: %s attribute=%s observed=%s required=%s after=%s" % v)
     if not c.violations:
         print("all attributes equal the printed column values")
     return 1 if c.violations else 0
